@@ -60,7 +60,13 @@ def run(ctx):
         ref_results, ref_snap, _, _ = PR.feed_impl(prep, [data])
         if any(k != "msgs" for k, _ in ref_results):
             hist["single-delivery-error"] += 1
-            continue   # not an acceptable stream for this session (e.g. non-bind while binding): outside the property
+            if prep != "server_binding":
+                # these streams are built to be accepted by these sessions (requests with fresh ids to a server, responses for the operations
+                # in progress to a client): a whole delivery that fails is itself a lost message
+                evaluations += 1
+                violations.append({"key": None, "what": f"a stream of {len(msgs)} well-formed message(s) that this session must accept, delivered whole to a fresh "
+                                   f"session, gave {[k for k, _ in ref_results]} instead of the messages", "prep": prep, "stream": data.hex()[:2000], "chunks": [data.hex()[:2000]]})
+            continue   # (a non-bind request while binding is not an acceptable stream: outside the property)
         ref = (ref_results, ref_snap)
         parts = []
         # every single cut position (long streams: every position near the headers, a spread elsewhere)
